@@ -112,6 +112,9 @@ class SSeries(Model):
             return SMasked(self, idx)
         raise Unsupported('Series index kind')
 
+    def a_iloc(self, ctx):
+        return _SeriesILoc(self)
+
     def m_to_list(self, ctx):
         if self.dtype == 'int':
             arr = fresh('tl', z3.ArraySort(z3.IntSort(), z3.IntSort()))
@@ -130,6 +133,26 @@ class SSeries(Model):
         ctx.assume(z3.Implies(b, z3.And(w >= 0, w < self.n, to_bool_term(at(w)))))
         ctx.hint(w)
         return SBool(b, 'npbool')
+
+
+class _SeriesILoc(Model):
+    def __init__(self, s):
+        self.s = s
+
+    def sym_getitem(self, ctx, idx):
+        if not is_intlike(idx):
+            raise Unsupported('Series.iloc index kind')
+        j = to_int_term(idx)
+        n = self.s.n
+        ctx.safe('iloc_index', z3.And(j >= -n, j < n), exc='IndexError')
+        jj = z3.simplify(z3.If(j < 0, j + n, j))
+        ctx.hint(jj)
+        if self.s.defd is not None:
+            ctx.safe('cell_defined', self.s.defd(jj))
+        return self.s.at(jj)
+
+
+LIB_DOC['pandas.Series.iloc[int]'] = 's.iloc[k]: the k-th element by position (negative k from the end); IndexError outside'
 
 
 class SMasked(Model):
